@@ -130,6 +130,15 @@ class Shapes:
             b = base_alloc(t)
             if b is not t and b != t:
                 return self.shape(b, want)
+            if tag == "phi":
+                # a join of alternatives that all have the same shape (`opt.unwrap_or(&J)` over `Some(W·J)`)
+                shs = []
+                for a_ in t[1]:
+                    if a_[0] in ("loopback", "unreachable"):
+                        continue
+                    shs.append(self.shape(a_, want))
+                if shs and all(x == shs[0] for x in shs):
+                    return shs[0]
         if tag == "payload" and t[2] == "ok":
             inner = t[1]
             if svd_ctor_term(t) is not None:
